@@ -174,6 +174,12 @@ func findFunctionCallViolation(
 	case *ast.Ident:
 		// Direct function call: CreateMockData()
 		funcName := fun.Name
+		// A local variable, parameter or closure may merely share the name of a @testonly function
+		if obj := ctx.pass.TypesInfo.Uses[fun]; obj != nil {
+			if _, isFunc := obj.(*types.Func); !isFunc {
+				return nil
+			}
+		}
 		if ctx.testOnlyFuncs.Match(*ctx.currentPkgPath, funcName, funcName) {
 			return &TestOnlyViolation{
 				Pos:         call.Pos(),
